@@ -76,13 +76,19 @@ def run(prop, tier, seed, work, ev):
     files.append(("JSON texts: numerals, strings, structures", c, "json", None))
     # hand-shaped families of the evaluation engine: texts that coincide under normalisation (a cache that exists under one feature
     # set only would show here), aliasing, per-element temporaries
-    for fam in ("confuse", "alias", "inflate"):
+    for fam in ("confuse", "alias", "inflate", "digitkeys", "cmpchain", "absent", "nested", "mapnull", "twoslice"):
         c = work.path("pool.%s.cases" % fam)
         with open(c, "w") as f:
             for line in open(eng_eval.POOLS):
                 if '"fam": "%s"' % fam in line:
                     f.write(line)
-        files.append((eng_eval.POOL_LABEL[fam], c, "search", eng_eval.POOLS + ".docs"))
+                    # ... and with the document handed to search as a serde_json::Value, owned and by reference (ToJmespath is
+                    # implemented differently under `specialized`)
+                    r = json.loads(line)
+                    for how in ("value", "ref"):
+                        r["input"] = how
+                        f.write(json.dumps(r) + "\n")
+        files.append((eng_eval.POOL_LABEL[fam] + " (document as Rcvar, as Value, as &Value)", c, "search", eng_eval.POOLS + ".docs"))
     import eng_sync
     c = work.path("long.cases")
     eng_sync.long_pool(c)
